@@ -1219,6 +1219,7 @@ class Process(StateMachine, persistence.Savable, metaclass=ProcessStateMachineMe
         if not self.paused:
             if self._pausing is not None:
                 # Not going to pause after all
+                self._state.recall(self._pausing.cookie)
                 self._pausing.cancel()
                 self._pausing = None
                 self._set_interrupt_action(None)
